@@ -265,6 +265,9 @@ def solve(ob, use_cvc5=True, fast=False):
     if ob.expect == "unsat":
         # portfolio: the plain query first (short budget), then the version with skolemisation, conjunct splitting and instantiation hints
         r, s = _check(list(ob.conds) + [z3.Not(ob.goal)], min(Z3_TIMEOUT_MS, 2_000), seeds=(0,))
+        if r == z3.unknown:      # ... the same query with the quantified hypotheses listed first (the order of the text matters to z3)
+            qf = [c for c in ob.conds if z3.is_quantifier(c)] + [c for c in ob.conds if not z3.is_quantifier(c)]
+            r, s = _check(qf + [z3.Not(ob.goal)], min(Z3_TIMEOUT_MS, 800), seeds=(0,))
         if r == z3.unknown:      # ... from the instances of the universal hypotheses at the goal's skolem constants alone
             r, s = _prove(list(ob.conds), ob.goal, level=0, timeout_ms=min(Z3_TIMEOUT_MS, 3_000), seeds=(0,), ground_only=True)
             if r == z3.sat:      # (a model of the weakened hypotheses refutes nothing)
